@@ -3,6 +3,7 @@ import PoseVerif.Model.Cache
 import PoseVerif.Model.Concurrent
 import PoseVerif.Model.JS
 import PoseVerif.Driver.Masked
+import PoseVerif.Driver.Collate
 /-!
 `posedriver`: one JSON request per input line, one JSON answer per output line.
 Runs the executable definitions of the model (the same ones the theorems are about).
@@ -149,6 +150,7 @@ def handle (j : Json) : R Json := do
         ("data", f32Arr body.data), ("conf", f32Arr body.conf)])
     | none => pure (Json.mkObj [("ok", Json.bool false), ("class", Json.str clsName)])
   | "masked_prog" => runMaskedProg j
+  | "collate" => runCollate j
   | "history" => runHistory j
   | "schedule" => runSchedule j
   | _ => throw s!"unknown op {op}"
